@@ -102,9 +102,19 @@ func (n *node[T]) rotateLeft() *node[T] {
 // findMin returns the node with the minimum low value in the subtree
 func (n *node[T]) findMin() *node[T] {
 	for n.left != nil {
-		return n.left
+		n = n.left
 	}
 	return n
+}
+
+// lessThan states whether the interval [low, high] comes strictly before
+// the interval of the node in the (low, high) lexicographic order.
+func (n *node[T]) lessThan(low, high int) bool {
+	nLow := n.item.GetLow()
+	if low != nLow {
+		return low < nLow
+	}
+	return high < n.item.GetHigh()
 }
 
 // IntervalBST is a binary search tree that stores intervals.
@@ -133,8 +143,7 @@ func (t *IntervalBST[T]) insertNode(root *node[T], item T) *node[T] {
 		}
 	}
 
-	low := item.GetLow()
-	if low < root.item.GetLow() {
+	if root.lessThan(item.GetLow(), item.GetHigh()) {
 		root.left = t.insertNode(root.left, item)
 	} else {
 		root.right = t.insertNode(root.right, item)
@@ -150,7 +159,7 @@ func (t *IntervalBST[T]) insertNode(root *node[T], item T) *node[T] {
 	// Left heavy
 	if balance > 1 {
 		// Left-Right case
-		if item.GetLow() > root.left.item.GetLow() {
+		if root.left.balanceFactor() < 0 {
 			root.left = root.left.rotateLeft()
 			return root.rotateRight()
 		}
@@ -161,7 +170,7 @@ func (t *IntervalBST[T]) insertNode(root *node[T], item T) *node[T] {
 	// Right heavy
 	if balance < -1 {
 		// Right-Left case
-		if item.GetLow() < root.right.item.GetLow() {
+		if root.right.balanceFactor() > 0 {
 			root.right = root.right.rotateRight()
 			return root.rotateLeft()
 		}
@@ -191,12 +200,9 @@ func (t *IntervalBST[T]) deleteNode(root *node[T], item T) *node[T] {
 	high := item.GetHigh()
 
 	// First locate the node to delete
-	if low < root.item.GetLow() {
+	if root.lessThan(low, high) {
 		root.left = t.deleteNode(root.left, item)
-	} else if low > root.item.GetLow() {
-		root.right = t.deleteNode(root.right, item)
-	} else if high != root.item.GetHigh() {
-		// Same low but different high, continue search
+	} else if low != root.item.GetLow() || high != root.item.GetHigh() {
 		root.right = t.deleteNode(root.right, item)
 	} else {
 		// Found the node to delete
@@ -213,7 +219,8 @@ func (t *IntervalBST[T]) deleteNode(root *node[T], item T) *node[T] {
 		successor := root.right.findMin()
 		root.item = successor.item
 
-		// Delete the inorder successor
+		// Delete the inorder successor (the size has already been decremented)
+		t.size++
 		root.right = t.deleteNode(root.right, successor.item)
 	}
 
